@@ -222,6 +222,7 @@ Proof.
   - destruct (leqb name n_concat).
     { destruct (Nat.leb_spec 2 (length (concat_args (ROp name rargs)))) as [L|L]; [|discriminate].
       intros E; inversion E; subst. apply c_concat_ok. exact L. }
+    destruct (date_args dialect name rargs) as [dargs|]; [|discriminate]. clear rargs. rename dargs into rargs.
     destruct (leqb name n_eq || leqb name n_ne).
     + destruct rargs as [|a [|b [|x t]]];
         try (intros E; exact (GEN name _ _ _ E)).
